@@ -912,6 +912,16 @@ class Engine:
                 return self.truth(h(self, [item], {}))
         if hasattr(container, 'vc_contains'):
             return container.vc_contains(self, item)
+        if isinstance(container, GenResult) and isinstance(container.items, list):
+            # `x in <generator>` consumes the generator up to and including the first match (all of it without one)
+            items = container.items
+            for i, y in enumerate(items):
+                e = self.equals(y, item)
+                if e is True or (e is not False and self.branch(e)):
+                    container.items = items[i + 1:]
+                    return True
+            container.items = []
+            return False
         raise Unsupported('`in` on %s' % pytype(container))
 
     # ---- ite on values
@@ -1550,7 +1560,9 @@ class Engine:
     def iterate_concrete(self, it):
         """Python list of the elements of an iterable with a concrete spine."""
         if isinstance(it, GenResult):
-            it = it.items
+            gen, it = it, it.items
+            if isinstance(it, list):
+                gen.items = []        # a generator is exhausted by iterating over it: a second pass sees nothing
         if isinstance(it, (list, tuple)):
             return list(it)
         if isinstance(it, (set, frozenset)):
